@@ -38,7 +38,7 @@ META = {
     "rule": "divisor 1..40 (biased small, powers of two and neighbours), byte or multi-byte (width 1..4) transmitter, 2-14 items "
             "with literal gaps: back-to-back, 1-3 cycles, exactly around the end of the running frame/word (-2..+2), long idle",
 }
-TIERS = {"quick": {"runs": 6000, "wall": 70}, "thorough": {"runs": 45000, "wall": 900}}
+TIERS = {"quick": {"runs": 12000, "wall": 70}, "thorough": {"runs": 45000, "wall": 900}}
 
 
 def gen(rng, tier, index):
